@@ -31,6 +31,35 @@ var unusedApps = map[string]*unused.RemoveUnusedImportApp{}
 // into one package-level slice, so encoding/json reuses its backing array from run to run.
 var reusedModel []core_domain.CodeDataStruct
 
+// A library user may keep one analyser value for the life of the process (the types are plain values
+// without fields); "reuse" steps therefore run on a value made once per process, other steps on a fresh one.
+var (
+	keptCall     call.CallGraph
+	keptRCall    rcall.RCallGraph
+	keptCallSet  bool
+	keptRCallSet bool
+)
+
+func callAnalyser(reuse bool) call.CallGraph {
+	if !reuse {
+		return call.NewCallGraph()
+	}
+	if !keptCallSet {
+		keptCall, keptCallSet = call.NewCallGraph(), true
+	}
+	return keptCall
+}
+
+func rcallAnalyser(reuse bool) rcall.RCallGraph {
+	if !reuse {
+		return rcall.NewRCallGraph()
+	}
+	if !keptRCallSet {
+		keptRCall, keptRCallSet = rcall.NewRCallGraph(), true
+	}
+	return keptRCall
+}
+
 func loadModelReuse(path string, reuse bool) ([]core_domain.CodeDataStruct, error) {
 	if !reuse {
 		return loadModel(path)
@@ -168,7 +197,7 @@ func dispatch(op Op) (interface{}, error) {
 		if err != nil {
 			return nil, err
 		}
-		return call.NewCallGraph().Analysis(a.Root, m, a.Lookup), nil
+		return callAnalyser(a.Reuse).Analysis(a.Root, m, a.Lookup), nil
 
 	case "callByFiles":
 		var a struct {
@@ -184,7 +213,7 @@ func dispatch(op Op) (interface{}, error) {
 		if err != nil {
 			return nil, err
 		}
-		dot, counts := call.NewCallGraph().AnalysisByFiles(a.Apis, m, a.DI)
+		dot, counts := callAnalyser(a.Reuse).AnalysisByFiles(a.Apis, m, a.DI)
 		return map[string]interface{}{"dot": dot, "counts": counts}, nil
 
 	case "rcall":
@@ -202,7 +231,7 @@ func dispatch(op Op) (interface{}, error) {
 		}
 		var cb json.RawMessage
 		calls := 0
-		dot := rcall.NewRCallGraph().Analysis(a.Target, m, func(rm map[string][]string) {
+		dot := rcallAnalyser(a.Reuse).Analysis(a.Target, m, func(rm map[string][]string) {
 			calls++
 			cb, _ = json.Marshal(rm) // snapshot at callback time
 		})
